@@ -211,6 +211,16 @@ fn segments(s: &str) -> Vec<Seg> {
     out
 }
 
+/// Does the text contain a decimal with more than 15 significant digits? (An f64, the
+/// library's amount type, holds 15 decimal digits exactly; longer amounts are a
+/// separate, known class.)
+pub fn has_long_number(s: &str) -> bool {
+    segments(s).iter().any(|g| match g {
+        Seg::Num(d) => d.int.len() + d.frac.len() > 15,
+        _ => false,
+    })
+}
+
 pub fn norm_content(s: &str) -> String {
     let mut t = s.replace("\r\n", "\n");
     while t.ends_with('\n') {
